@@ -142,3 +142,35 @@ func subscriptionRun(panics bool, budget int) {
 
 // Harness_C01_subscription: outcomes in {value, null, error}.
 func Harness_C01_subscription() { subscriptionRun(false, zzsym.Param("budget", 2)) }
+
+func Setup_C01_errorLists() { probeSetup() }
+
+// Harness_C01_errorLists: a resolver that reports several failures at once
+// (it returns a gqlerror.List): every entry of the list is an entry of the
+// response, at the field's path - on fields with and without schema
+// directives, plain, below list elements, non-null (with propagation).
+func Harness_C01_errorLists() {
+	docs := []string{
+		`{ me { secret name } }`,
+		`{ me { best { id } name } }`,
+		`{ users { link { id } secret } }`,
+		`{ me { friends { boss { id } } id } }`,
+		`{ me { a: secret b: best { id } c: echo(s: "x") } }`,
+	}
+	spots := [][]string{{"me/User.secret"}, {"me/User.best"}, {"users[0]/User.link", "users[1]/User.secret"}, {"me.friends[0]/User.boss"}, {"me/User.secret", "me/User.best", "me/User.echo"}}
+	di := zzsym.Choice("doc", len(docs))
+	doc := mustLoad(docs[di])
+	w := newWorld(0, false)
+	w.outs["/Query.users"] = ref.Out{List: users("users[0]", "users[1]")}
+	w.outs["me/User.friends"] = ref.Out{List: users("me.friends[0]", "me.friends[1]")}
+	for _, sp := range spots[di] {
+		w.outs[sp] = ref.Out{K: ref.KErrors}
+	}
+	op := doc.Operations[0]
+	got := runOp(w, doc, op, nil)
+	want := ref.Execute(pSchema, doc, op, nil, w)
+	zzsym.Event("errors", strings.Join(got.errs, " "))
+	zzsym.Assert(got.data == want.Data, "data equals the reference execution")
+	zzsym.Assert(len(want.Errors) >= 2 && sameErrors(got.errs, want.Errors), "every entry of an error list a resolver returns is an entry of the response, at the field's path")
+	zzsym.Reach("c01.errlists")
+}
